@@ -14,7 +14,7 @@ MacroNext ==
   /\ \/ EnStart(S) /\ S' = RunToQuiescence(ApplyStart(S))
      \/ EnStop(S) /\ S' = RunToQuiescence(ApplyStop(S))
      \/ \E l \in Leaves, ch \in {"v", "e", "d"} :
-           (ch = "d" => l \in CbLeaves) /\ EnCompleteLeaf(S, l) /\ S' = RunToQuiescence(ApplyCompleteLeaf(S, l, ch))
+           LeafChOk(l, ch) /\ EnCompleteLeaf(S, l) /\ S' = RunToQuiescence(ApplyCompleteLeaf(S, l, ch))
      \/ \E c \in Ctxs : EnRunCtx(S, c) /\ S' = RunToQuiescence(ApplyRunCtx(S, c))
 MacroSpec == Init /\ [][MacroNext]_vars
 EdgeLog ==
